@@ -1,3 +1,5 @@
+//go:build all || c17 || c08
+
 package props
 
 import (
@@ -48,34 +50,6 @@ func utf16ToString(u []uint16) string {
 		}
 	}
 	return sb.String()
-}
-
-func c17Text(rng *core.RNG, kind string, n int) []uint16 {
-	var u []uint16
-	for len(u) < n {
-		switch kind {
-		case "ascii":
-			u = append(u, uint16(32+rng.Intn(95)))
-		case "bmp":
-			c := uint16(0x00A0 + rng.Intn(0xD000))
-			u = append(u, c)
-		case "latin1": // every code point below U+0100, some of them above U+007F
-			c := uint16(0x20 + rng.Intn(0x5F))
-			if rng.Intn(3) == 0 || len(u) == 0 {
-				c = uint16(0xA1 + rng.Intn(0x5E))
-			}
-			u = append(u, c)
-		case "astral":
-			if rng.Intn(3) == 0 && len(u)+2 <= n {
-				cp := 0x10000 + rng.Intn(0xFFFFF)
-				cp -= 0x10000
-				u = append(u, uint16(0xD800+cp>>10), uint16(0xDC00+cp&0x3ff))
-			} else {
-				u = append(u, uint16(0x3040+rng.Intn(0x100)))
-			}
-		}
-	}
-	return u
 }
 
 var c17Langs = []string{"de", "fr", "ja", "zh", "es", "it", "ko", "pt", "nl", "sv", "da", "fi", "nb", "pl", "ru", "tr", "cs", "hu", "el", "he", "ar", "th", "uk", "ro", "ca", "hr", "sk", "vi", "id", "ms"}
